@@ -319,9 +319,13 @@ type Stress struct {
 	CloseAfter int    `json:"close_after"` // submitter 0 closes the connection after this many of its jobs (-1 never)
 	Procs      int    `json:"gomaxprocs"`
 	PanicEvery int    `json:"panic_every"`
+	// YieldPerMille (instrumented build only): probability, in 1/1000, with which every lock / unlock
+	// statement of the library yields the processor or sleeps 1-50 us (schedule perturbation)
+	YieldPerMille int `json:"yield_per_mille,omitempty"`
 }
 
 func runStress(c Stress) vlib.Result {
+	defer vlib.Yield(c.YieldPerMille, 0x5eed)()
 	vlib.Logs.Take()
 	res := vlib.Result{Classes: []string{"stress", "executor=" + c.Exec, fmt.Sprintf("gomaxprocs=%d", c.Procs)}}
 	old := runtime.GOMAXPROCS(c.Procs)
@@ -383,7 +387,7 @@ func runStress(c Stress) vlib.Result {
 		}(s)
 	}
 	wg.Wait()
-	ok := vlib.WaitUntil(5*time.Second, func() bool {
+	ok := vlib.WaitProgress(5*time.Second, func() bool {
 		for s := range all {
 			for _, j := range all[s] {
 				if j.accepted && atomic.LoadInt32(&j.runs) == 0 {
@@ -392,7 +396,7 @@ func runStress(c Stress) vlib.Result {
 			}
 		}
 		return true
-	})
+	}, func() int64 { return atomic.LoadInt64(&seq) })
 	time.Sleep(2 * time.Millisecond)
 	if atomic.LoadInt32(&overlap) != 0 {
 		res.Err = fmt.Errorf("two jobs of the same connection ran at the same time")
@@ -444,6 +448,9 @@ func genStress(t *rapid.T) Stress {
 	}
 	c.Procs = rapid.SampledFrom([]int{1, 2, 4, 16}).Draw(t, "procs")
 	c.PanicEvery = rapid.SampledFrom([]int{0, 0, 7, 50}).Draw(t, "panicevery")
+	if vlib.YieldAvailable {
+		c.YieldPerMille = rapid.SampledFrom([]int{0, 0, 20, 100, 300}).Draw(t, "yield")
+	}
 	return c
 }
 
@@ -458,9 +465,13 @@ type CloseRace struct {
 	CloseBy    string `json:"close_by"` // close, peer-close, closewitherror
 	DelayUs    int    `json:"delay_us"`
 	Procs      int    `json:"gomaxprocs"`
+	// YieldPerMille (instrumented build only): probability, in 1/1000, with which every lock / unlock
+	// statement of the library yields the processor or sleeps 1-50 us (schedule perturbation)
+	YieldPerMille int `json:"yield_per_mille,omitempty"`
 }
 
 func runCloseRace(c CloseRace) vlib.Result {
+	defer vlib.Yield(c.YieldPerMille, 0x5eed)()
 	vlib.Logs.Take()
 	res := vlib.Result{Classes: []string{"close-race", "executor=" + c.Exec, "close-by=" + c.CloseBy, fmt.Sprintf("gomaxprocs=%d", c.Procs)}}
 	old := runtime.GOMAXPROCS(c.Procs)
@@ -599,13 +610,19 @@ func runCloseRace(c CloseRace) vlib.Result {
 		}()
 	}
 	wg.Wait()
-	ok := vlib.WaitUntil(5*time.Second, func() bool {
+	ok := vlib.WaitProgress(5*time.Second, func() bool {
 		for _, st := range all {
 			if atomic.LoadInt64(&st.closeSeq) == 0 || atomic.LoadInt64(&st.ran) < atomic.LoadInt64(&st.accepted) {
 				return false
 			}
 		}
 		return true
+	}, func() int64 {
+		var n int64
+		for _, st := range all {
+			n += atomic.LoadInt64(&st.seq)
+		}
+		return n
 	})
 	time.Sleep(2 * time.Millisecond)
 	for i, st := range all {
@@ -641,6 +658,9 @@ func genCloseRace(t *rapid.T) CloseRace {
 	c.CloseBy = rapid.SampledFrom([]string{"close", "peer-close", "closewitherror"}).Draw(t, "closeby")
 	c.DelayUs = rapid.SampledFrom([]int{0, 20, 100, 500}).Draw(t, "delay")
 	c.Procs = rapid.SampledFrom([]int{2, 4, 16}).Draw(t, "procs")
+	if vlib.YieldAvailable {
+		c.YieldPerMille = rapid.SampledFrom([]int{0, 0, 20, 100, 300}).Draw(t, "yield")
+	}
 	return c
 }
 
